@@ -614,7 +614,110 @@ Definition obs_krow (k : hooks) (x : kop * cstate * option (bool * reply)) : lis
       Z.of_nat (length (cache s)); now s;
       if h_block k then total_blocked s else 0; if h_permit k then total_permitted s else 0].
 
-Definition case := (cfg * hooks * list kop)%type.
+(* ---------------------------------------------------------------------- *)
+(* LIVE RECONFIGURATION, and prompts that cannot be hashed                 *)
+
+(* failure_threshold and recovery_timeout are public attributes that the breaker methods read on every call
+   (gen/Gen_C08.v: they are fields of the record the generated methods work on), so an operator may assign them
+   on a live loop - lengthen the timeout of an outage in progress, switch to "manual reset only" (a timeout of
+   thousands of years), shorten it to zero, raise or lower the threshold.  A live history threads the configuration
+   through the operations: [SetTimeout t] / [SetThreshold n] replace it, every other operation runs under the
+   configuration in force at that moment.
+
+   [Odd r] is a request whose prompt cannot be hashed: a str with a lone surrogate (prompt.encode() raises
+   UnicodeEncodeError) or a prompt that is not a str at all (None, bytes, an int: no .encode()).  run() touches
+   the prompt only AFTER the breaker check: a refused request is answered CIRCUIT_OPEN whatever the prompt is.
+   An admitted one raises - with the cache enabled in _check_cache (before the agents), with the cache disabled
+   in _apply_gate_logic (after both agents have answered; an agent that raises is booked and answered as
+   always): [LRaisedInRun], an explicit constructor of the reply.  Such a request is none of the property's
+   outcome classes; it is here so that isolation while open can be stated for EVERY prompt. *)
+Definition set_timeout (c : cfg) (t : Z) : cfg :=
+  mkCfg (enabled c) (threshold c) t (cache_on c) (ttl c) (glogic c) (cost c) (legacy c) (interim c).
+Definition set_threshold (c : cfg) (n : Z) : cfg :=
+  mkCfg (enabled c) n (timeout c) (cache_on c) (ttl c) (glogic c) (cost c) (legacy c) (interim c).
+
+(* run() on a prompt that cannot be hashed; [None]: run() raised *)
+Definition odd_req (c : cfg) (s0 : state) (r : request) : state * option result :=
+  let s := bump_requests s0 in
+  let '(b1, admitted) :=
+    if enabled c then check_circuit (timeout c) (now s) (br s) else (br s, true) in
+  let s1 := set_br s b1 in
+  if negb admitted then (s1, Some res_circuit_open)
+  else if cache_on c then (s1, None)
+  else
+    let s3 := call_z c s1 (dur r) in
+    match zb r with
+    | Raises => let '(s', res) := fail_req c s3 in (s', Some res)
+    | Returns _ =>
+        let s4 := call_y c s3 in
+        match yb r with
+        | Raises => let '(s', res) := fail_req c s4 in (s', Some res)
+        | Returns _ => (s4, None)
+        end
+    end.
+
+Inductive lreply := LReply (p : reply) | LRaisedInRun.
+Inductive lop := K (o : kop) | SetTimeout (t : Z) | SetThreshold (n : Z) | Odd (r : request).
+Definition lstate := (cfg * cstate)%type.
+
+Definition lstep (k : hooks) (ls : lstate) (o : lop) : lstate * option (bool * lreply) :=
+  let '(c, cs) := ls in
+  match o with
+  | K o' =>
+      let '(cs', r) := kstep c k cs o' in
+      ((c, cs'), match r with Some (w, p) => Some (w, LReply p) | None => None end)
+  | SetTimeout t => ((set_timeout c t, cs), None)
+  | SetThreshold n => ((set_threshold c n, cs), None)
+  | Odd r =>
+      let '(s', x) := odd_req c (fst cs) r in
+      ((c, (s', snd cs)),
+       Some (true, match x with Some res => LReply (Returned res) | None => LRaisedInRun end))
+  end.
+
+Fixpoint lrun (k : hooks) (ls : lstate) (ops : list lop) : lstate * list (bool * lreply) :=
+  match ops with
+  | [] => (ls, [])
+  | o :: rest =>
+      let '(ls1, r) := lstep k ls o in
+      let '(ls2, rs) := lrun k ls1 rest in
+      (ls2, match r with Some x => x :: rs | None => rs end)
+  end.
+
+Fixpoint ltrace (k : hooks) (ls : lstate) (ops : list lop)
+  : list (lop * lstate * option (bool * lreply)) :=
+  match ops with
+  | [] => []
+  | o :: rest => let '(ls1, r) := lstep k ls o in (o, ls1, r) :: ltrace k ls1 rest
+  end.
+
+Definition lop_code (o : lop) : Z :=
+  match o with K o' => cop_code (fst o') | SetTimeout _ => 7 | SetThreshold _ => 8 | Odd _ => 9 end.
+
+(* the row of an operation of a live history: the columns of [obs_krow] (answer flag 3: run() raised an
+   exception of its own - the prompt could not be hashed), then failure_threshold and recovery_timeout as the
+   loop's attributes read after the operation *)
+Definition obs_lrow (k : hooks) (x : lop * lstate * option (bool * lreply)) : list Z :=
+  let '(o, ls, r) := x in
+  let c := fst ls in
+  let s := fst (snd ls) in
+  let b := br s in
+  [lop_code o]
+  ++ match r with
+     | Some (_, LReply p) =>
+         let res := reply_result p in
+         [if is_raised p then 2 else 1; b2z (r_success res); b2z (r_blocked res); action_code (r_action res);
+          b2z (r_cached res); exec_code (r_exec res)]
+     | Some (_, LRaisedInRun) => [3; 0; 0; 0; 0; 0]
+     | None => [0; 0; 0; 0; 0; 0]
+     end
+  ++ [circ_code (circ b); fcount b; scount b] ++ oz (last_failure b) ++ oz (last_success b)
+  ++ [trips b; total_errors b; zcalls s; ycalls s; spent s;
+      total_requests s; total_blocked s; total_permitted s;
+      Z.of_nat (length (cache s)); now s;
+      if h_block k then total_blocked s else 0; if h_permit k then total_permitted s else 0;
+      threshold c; timeout c].
+
+Definition case := (cfg * hooks * list lop)%type.
 
 Definition run_case (c : case) : list (list Z) :=
-  let '(cf, k, ops) := c in map (obs_krow k) (ktrace cf k (init, []) ops).
+  let '(cf, k, ops) := c in map (obs_lrow k) (ltrace k (cf, (init, [])) ops).
